@@ -22,6 +22,12 @@ def trace_filter(code):
     return any(p in f for p in _PARTS) and not f.endswith(_SKIP)
 
 
+def trace_filter_vm(code):
+    """scripts that never address a device: the VM and the runtime functions only"""
+    f = code.co_filename
+    return '/bardolph/vm/' in f or '/bardolph/runtime/' in f
+
+
 def solo(w, text):
     w.reset()
     res = w.run_script(text)
@@ -29,9 +35,10 @@ def solo(w, text):
     return [e for e in res.trace if e[0] != 'flush'], (res.abort or res.raised)
 
 
-def execute(w, texts, chooser):
+def execute(w, texts, chooser, vm_only=False):
     """texts: ((tag, script), ...) -> dict(per-tag projections, verdict, errors)"""
-    sched = vthreads.Scheduler(chooser, horizon=1e7, max_steps=400000, trace_filter=trace_filter, stall=False)
+    sched = vthreads.Scheduler(chooser, horizon=1e7, max_steps=400000,
+                               trace_filter=trace_filter_vm if vm_only else trace_filter, stall=False)
     shim = vthreads.ShimThreadingModule(sched, [t for t, _ in texts])
     w.reset()
     w.net.log.tagger = lambda: sched.current.name if sched.current is not None else 'main'
@@ -56,12 +63,12 @@ def execute(w, texts, chooser):
     return dict(per=per, verdict=verdict, errors=list(sched.errors), aborts=aborts, points=sched.points)
 
 
-def explore_pair(w, texts, bound, solo_traces):
+def explore_pair(w, texts, bound, solo_traces, shard=None, vm_only=False):
     """-> dict(execs, points, outcomes, viol{kind: [count, choices, detail]})"""
     st = dict(execs=0, points=0, outcomes=set(), viol={})
 
     def run(ch):
-        return execute(w, texts, ch)
+        return execute(w, texts, ch, vm_only)
 
     def judge(obs):
         if obs['verdict'] is not None:
@@ -84,7 +91,7 @@ def explore_pair(w, texts, bound, solo_traces):
         bad = judge(obs)
         verdicts[tuple(ch.choices)] = bad
         return bad is None
-    for ch, obs in choice.explore(run, bound=bound, expand=expand):
+    for ch, obs in choice.explore(run, bound=bound, expand=expand, shard=shard):
         st['execs'] += 1
         st['points'] += obs['points']
         st['outcomes'].add(repr(sorted(obs['per'].items())))
@@ -99,9 +106,18 @@ def explore_pair(w, texts, bound, solo_traces):
     return st
 
 
+def split(tasks, shards=2):
+    """(pop, a, b, bound[, vm_only]) -> one task per start order and shard of the search"""
+    return [tuple(t[:4]) + (bool(t[4]) if len(t) > 4 else False, order, (r, shards))
+            for t in tasks for order in (0, 1) for r in range(shards)]
+
+
 def pair_task(args):
-    """(pop, textA, textB, bound) -> stats; both start orders"""
-    pop, a, b, bound = args
+    """(pop, textA, textB, bound, vm_only, order, shard) -> stats"""
+    pop, a, b, bound = args[:4]
+    vm_only = args[4] if len(args) > 4 else False
+    orders = (0, 1) if len(args) <= 5 else (args[5],)
+    shard = args[6] if len(args) > 6 else None
     w = world.World(pop)
     tot = dict(execs=0, points=0, outcomes=0, viol={})
     solos = {}
@@ -109,8 +125,8 @@ def pair_task(args):
         tr, ab = solo(w, text)
         assert ab is None, (text, ab)
         solos[tag] = [tuple(e) for e in tr]
-    for texts in ((('A', a), ('B', b)), (('B', b), ('A', a))):
-        st = explore_pair(w, texts, bound, solos)
+    for texts in [((('A', a), ('B', b)), (('B', b), ('A', a)))[o] for o in orders]:
+        st = explore_pair(w, texts, bound, solos, shard, vm_only)
         tot['execs'] += st['execs']
         tot['points'] += st['points']
         tot['outcomes'] = max(tot['outcomes'], st['outcomes'])
@@ -123,13 +139,13 @@ def pair_task(args):
     return tot
 
 
-def replay(pop, texts, choices):
+def replay(pop, texts, choices, vm_only=False):
     w = world.World(pop)
     solos = {}
     for tag, text in texts:
         tr, ab = solo(w, text)
         solos[tag] = [tuple(e) for e in tr]
-    obs = execute(w, tuple(tuple(t) for t in texts), choice.Chooser(choices))
+    obs = execute(w, tuple(tuple(t) for t in texts), choice.Chooser(choices), vm_only)
     for tag, text in texts:
         print('job', tag, ':', text)
         print('   alone      :', solos[tag])
